@@ -75,3 +75,84 @@ pub fn tables() -> Vec<Table> {
     crate::bid_binarydecimal::verif_tables(&mut out);
     out
 }
+
+/// Direct access to the crate-internal helper routines (rounding helpers, pack / unpack, underflow
+/// handlers, multi-word arithmetic), so that an external checker can run them on their own input space.
+/// Arguments and results are flat 64-bit words (multi-word integers little-endian, `i32` sign-extended).
+/// Returns `None` for an unknown name or a wrong number of arguments.
+pub fn helper(name: &str, a: &[u64], rnd_mode: u32, flags: &mut u32) -> Option<Vec<u64>> {
+    use crate::bid_internal::*;
+    use crate::bid_round::*;
+    use crate::d128::RoundingMode;
+    let u128_ = |i: usize| -> BID_UINT128 { let mut r = BID_UINT128::default(); r.w[0] = a[i]; r.w[1] = a[i + 1]; r };
+    let u192_ = |i: usize| -> BID_UINT192 { BID_UINT192 { w: [a[i], a[i + 1], a[i + 2]] } };
+    let u256_ = |i: usize| -> BID_UINT256 { BID_UINT256 { w: [a[i], a[i + 1], a[i + 2], a[i + 3]] } };
+    let need = |n: usize| -> Option<()> { if a.len() == n { Some(()) } else { None } };
+    let b = |x: bool| x as u64;
+    let (mut incr, mut lt_even, mut gt_even, mut in_lt, mut in_gt) = (false, false, false, false, false);
+    Some(match name {
+        "round64" => { need(3)?;
+            let c = bid_round64_2_18(a[0] as i32, a[1] as i32, a[2], &mut incr, &mut lt_even, &mut gt_even, &mut in_lt, &mut in_gt);
+            vec![c, b(incr), b(lt_even), b(gt_even), b(in_lt), b(in_gt)] }
+        "round128" => { need(4)?;
+            let c = bid_round128_19_38(a[0] as i32, a[1] as i32, &u128_(2), &mut incr, &mut lt_even, &mut gt_even, &mut in_lt, &mut in_gt);
+            vec![c.w[0], c.w[1], b(incr), b(lt_even), b(gt_even), b(in_lt), b(in_gt)] }
+        "round192" => { need(5)?;
+            let c = bid_round192_39_57(a[0] as i32, a[1] as i32, &u192_(2), &mut incr, &mut lt_even, &mut gt_even, &mut in_lt, &mut in_gt);
+            vec![c.w[0], c.w[1], c.w[2], b(incr), b(lt_even), b(gt_even), b(in_lt), b(in_gt)] }
+        "round256" => { need(6)?;
+            let c = bid_round256_58_76(a[0] as i32, a[1] as i32, &u256_(2), &mut incr, &mut lt_even, &mut gt_even, &mut in_lt, &mut in_gt);
+            vec![c.w[0], c.w[1], c.w[2], c.w[3], b(incr), b(lt_even), b(gt_even), b(in_lt), b(in_gt)] }
+        "unpack_value" | "unpack" => { need(2)?;
+            let (mut s, mut e, mut c) = (0u64, 0i32, BID_UINT128::default());
+            let r = if name == "unpack" { unpack_BID128(&mut s, &mut e, &mut c, &u128_(0)) } else { unpack_BID128_value(&mut s, &mut e, &mut c, &u128_(0)) };
+            vec![r, s, e as i64 as u64, c.w[0], c.w[1]] }
+        "get_very_fast" => { need(4)?; let r = bid_get_BID128_very_fast(a[0], a[1] as i32, &u128_(2)); vec![r.w[0], r.w[1]] }
+        "get_fast" => { need(4)?; let (mut e, mut c) = (a[1] as i32, u128_(2));
+            let r = bid_get_BID128_fast(a[0], &mut e, &mut c); vec![r.w[0], r.w[1], e as i64 as u64, c.w[0], c.w[1]] }
+        "get" => { need(4)?; let r = bid_get_BID128(a[0], a[1] as i32, &u128_(2), RoundingMode::from(rnd_mode), flags); vec![r.w[0], r.w[1]] }
+        "handle_uf" => { need(4)?; let r = handle_UF_128(a[0], a[1] as i32, &u128_(2), RoundingMode::from(rnd_mode), flags); vec![r.w[0], r.w[1]] }
+        "handle_uf_rem" => { need(5)?; let r = bid_handle_UF_128_rem(a[0], a[1] as i32, &u128_(2), a[4], RoundingMode::from(rnd_mode), flags); vec![r.w[0], r.w[1]] }
+        "shr_128" => { need(3)?; let r = __shr_128(&u128_(0), a[2] as i32); vec![r.w[0], r.w[1]] }
+        "shr_256" => { need(5)?; let r = __shr_256(&u256_(0), a[4] as i32); r.w.to_vec() }
+        "shr_128_long" => { need(3)?; let r = __shr_128_long(&u128_(0), a[2] as i32); vec![r.w[0], r.w[1]] }
+        "shl_128_long" => { need(3)?; let r = __shl_128_long(&u128_(0), a[2] as i32); vec![r.w[0], r.w[1]] }
+        "add_128_64" => { need(3)?; let r = __add_128_64(&u128_(0), a[2]); vec![r.w[0], r.w[1]] }
+        "sub_128_64" => { need(3)?; let r = __sub_128_64(&u128_(0), a[2]); vec![r.w[0], r.w[1]] }
+        "add_128_128" => { need(4)?; let r = __add_128_128(&u128_(0), &u128_(2)); vec![r.w[0], r.w[1]] }
+        "sub_128_128" => { need(4)?; let r = __sub_128_128(&u128_(0), &u128_(2)); vec![r.w[0], r.w[1]] }
+        "sub_256_128_to_256" => { need(6)?; let r = __sub_256_128_to_256(&u256_(0), &u128_(4)); r.w.to_vec() }
+        "add_carry_out" => { need(2)?; let (s, c) = __add_carry_out(a[0], a[1]); vec![s, c] }
+        "add_carry_in_out" => { need(3)?; let (s, c) = __add_carry_in_out(a[0], a[1], a[2]); vec![s, c] }
+        "sub_borrow_out" => { need(2)?; let (s, c) = __sub_borrow_out(a[0], a[1]); vec![s, c] }
+        "sub_borrow_in_out" => { need(3)?; let (s, c) = __sub_borrow_in_out(a[0], a[1], a[2]); vec![s, c] }
+        "mul_64x64_to_64" => { need(2)?; vec![__mul_64x64_to_64(a[0], a[1])] }
+        "mul_64x64_to_128" => { need(2)?; let r = __mul_64x64_to_128(a[0], a[1]); vec![r.w[0], r.w[1]] }
+        "mul_64x64_to_128_fast" => { need(2)?; let r = __mul_64x64_to_128_fast(a[0], a[1]); vec![r.w[0], r.w[1]] }
+        "mul_64x64_to_128_full" => { need(2)?; let r = __mul_64x64_to_128_full(a[0], a[1]); vec![r.w[0], r.w[1]] }
+        "mul_64x64_to_128MACH" => { need(2)?; let r = __mul_64x64_to_128MACH(a[0], a[1]); vec![r.w[0], r.w[1]] }
+        "mul_64x64_to_128HIGH" => { need(2)?; vec![__mul_64x64_to_128HIGH(a[0], a[1])] }
+        "mul_128x128_high" => { need(4)?; let r = __mul_128x128_high(&u128_(0), &u128_(2)); vec![r.w[0], r.w[1]] }
+        "mul_128x128_full" => { need(4)?; let (h, l) = __mul_128x128_full(&u128_(0), &u128_(2)); vec![h.w[0], h.w[1], l.w[0], l.w[1]] }
+        "mul_128x128_low" => { need(4)?; let r = __mul_128x128_low(&u128_(0), &u128_(2)); vec![r.w[0], r.w[1]] }
+        "mul_64x128_low" => { need(3)?; let r = __mul_64x128_low(a[0], &u128_(1)); vec![r.w[0], r.w[1]] }
+        "mul_64x128_full" => { need(3)?; let (h, l) = __mul_64x128_full(a[0], &u128_(1)); vec![h, l.w[0], l.w[1]] }
+        "mul_64x128_to_192" => { need(3)?; let r = __mul_64x128_to_192(a[0], &u128_(1)); r.w.to_vec() }
+        "mul_64x128_to_256" => { need(3)?; let r = __mul_64x128_to_256(a[0], &u128_(1)); r.w.to_vec() }
+        "mul_64x128_to192" => { need(3)?; let r = __mul_64x128_to192(a[0], &u128_(1)); r.w.to_vec() }
+        "mul_128x128_to_256" => { need(4)?; let r = __mul_128x128_to_256(&u128_(0), &u128_(2)); r.w.to_vec() }
+        "mul_64x192_to_256" => { need(4)?; let r = __mul_64x192_to_256(a[0], &u192_(1)); r.w.to_vec() }
+        "mul_64x256_to_256" => { need(5)?; let r = __mul_64x256_to_256(a[0], &u256_(1)); r.w.to_vec() }
+        "mul_128x64_to_128" => { need(3)?; let r = __mul_128x64_to_128(a[0], &u128_(1)); vec![r.w[0], r.w[1]] }
+        "mul_64x128_to_128" => { need(3)?; let r = __mul_64x128_to_128(a[0], &u128_(1)); vec![r.w[0], r.w[1]] }
+        "mul_64x256_to_320" => { need(5)?; let r = __mul_64x256_to_320(a[0], &u256_(1)); r.w.to_vec() }
+        "mul_192x192_to_384" => { need(6)?; let r = __mul_192x192_to_384(&u192_(0), &u192_(3)); r.w.to_vec() }
+        "sqr128_to_256" => { need(2)?; let mut p = BID_UINT256::default(); __sqr128_to_256(&mut p, &u128_(0)); p.w.to_vec() }
+        "mul_256x256_to_512" => { need(8)?; let r = __mul_256x256_to_512(&u256_(0), &u256_(4)); r.w.to_vec() }
+        "mul_64x128_short" => { need(3)?; let r = __mul_64x128_short(a[0], &u128_(1)); vec![r.w[0], r.w[1]] }
+        "compare_gt_128" => { need(4)?; vec![b(__unsigned_compare_gt_128(&u128_(0), &u128_(2)))] }
+        "compare_ge_128" => { need(4)?; vec![b(__unsigned_compare_ge_128(&u128_(0), &u128_(2)))] }
+        "test_equal_128" => { need(4)?; vec![b(__test_equal_128(&u128_(0), &u128_(2)))] }
+        _ => return None,
+    })
+}
